@@ -14,8 +14,15 @@ package storage
 // The last sequence number reported by statistics never decreases.
 //@ monotone[C08] (*Manager).lastSeqNum
 
+// C02 (write-ahead): the memtable insert happens only after the log append of the same operation succeeded - and, in
+// SyncImmediate mode, after the record was flushed and fsynced (wal.Append's C02 postcondition): ghost walOK.
+//@ ghost field (*Manager) walOK bool
 //@ func (*Manager).Put$1
 //@   requires SeqInv(m) && lockset(m.mu, W)
+//@   ghost entry: m.walOK = false
+//@   ghost after call (*WAL).Append#1: m.walOK = (err == nil && (currentWAL.cfg.WALSyncMode == config.SyncImmediate ==> wrflushed[currentWAL.writer] == wrlen[currentWAL.writer]))
+//@   check[C02] before call (*MemTablePool).Put#1: m.walOK
+//@   ensures[C02] err == nil ==> m.walOK
 //@   ensures[C08] SeqInv(m)
 //@   ensures[C08] err == nil ==> m.memTablePool.lastStamp > old(m.memTablePool.maxStamp) && m.memTablePool.maxStamp == m.memTablePool.lastStamp
 //@   ensures[C08,C06] err != nil ==> m.memTablePool.maxStamp == old(m.memTablePool.maxStamp)
@@ -24,6 +31,10 @@ package storage
 
 //@ func (*Manager).Delete$1
 //@   requires SeqInv(m) && lockset(m.mu, W)
+//@   ghost entry: m.walOK = false
+//@   ghost after call (*WAL).Append#1: m.walOK = (err == nil && (currentWAL.cfg.WALSyncMode == config.SyncImmediate ==> wrflushed[currentWAL.writer] == wrlen[currentWAL.writer]))
+//@   check[C02] before call (*MemTablePool).Delete#1: m.walOK
+//@   ensures[C02] err == nil ==> m.walOK
 //@   ensures[C08] SeqInv(m)
 //@   ensures[C08] err == nil ==> m.memTablePool.lastStamp > old(m.memTablePool.maxStamp) && m.memTablePool.maxStamp == m.memTablePool.lastStamp
 //@   ensures[C08,C06] err != nil ==> m.memTablePool.maxStamp == old(m.memTablePool.maxStamp)
@@ -34,12 +45,17 @@ package storage
 // old(maxStamp) < s <= lastIssued' < next'.
 //@ func (*Manager).ApplyBatch$1
 //@   requires SeqInv(m) && lockset(m.mu, W)
+//@   ghost entry: m.walOK = false
+//@   ghost after call (*WAL).AppendBatch#1: m.walOK = (err == nil)
+//@   check[C02] before call (*MemTablePool).Put#1: m.walOK
+//@   check[C02] before call (*MemTablePool).Delete#1: m.walOK
 //@   ensures[C08] SeqInv(m)
 //@   ensures[C08] err == nil ==> m.memTablePool.maxStamp == old(m.memTablePool.maxStamp) || (m.memTablePool.maxStamp == m.memTablePool.lastStamp && m.memTablePool.lastStamp == m.lastIssued && m.memTablePool.lastStamp > old(m.memTablePool.maxStamp))
 //@   ensures[C08,C06] err != nil ==> m.memTablePool.maxStamp == old(m.memTablePool.maxStamp)
 //@   ensures[C08] m.lastSeqNum >= old(m.lastSeqNum)
 //@   ghost after call (*WAL).AppendBatch#1: m.lastIssued = ite(err == nil && len(entries) > 0, result0, m.lastIssued)
 //@ loop (*Manager).ApplyBatch$1#1
+//@   invariant[C02] m.walOK
 //@   invariant[C08] m.wal != nil && m.memTablePool.maxStamp <= m.lastIssued && m.lastIssued < m.wal.nextSequence && m.lastSeqNum <= m.lastIssued
 //@   invariant[C08] len(entries) == 0 || (m.lastIssued == startSeqNum && startSeqNum > old(m.memTablePool.maxStamp))
 //@   invariant[C08] m.memTablePool.maxStamp == old(m.memTablePool.maxStamp) || (m.memTablePool.maxStamp == m.memTablePool.lastStamp && m.memTablePool.lastStamp == startSeqNum && len(entries) > 0)
@@ -90,6 +106,13 @@ package storage
 // C10: log files are moved aside only when replay saw damage or the recovery handler failed - never for a log that
 // merely ends early (a torn tail), and never for a readable log.
 //@   check[C10] before call os.Rename#1: walDamage > old(walDamage) || walHandlerErrs > old(walHandlerErrs)
+// C02: recovery is not limited by the memtable budget (a log larger than MaxMemTables x MemTableSize must not make
+// recovery fail: a failed recovery moves the log aside), and EVERY recovered table is installed through the pool in log
+// order, so that all recovered keys are readable as soon as the database is open (recInstalled counts the installs).
+//@   check[C02] before call RecoverFromWAL#1: arg_opts != nil && arg_opts.MaxMemTables == 9223372036854775807
+//@   ghost entry: recInstalled = 0
+//@   ghost after call (*MemTablePool).SetActiveMemTable#1: recInstalled = recInstalled + 1
+//@   check[C02] after call Collector.FinishRecovery#3: recInstalled == len(memTables)
 //@ func (*Manager).GetStorageStats
 //@   requires lockset() && m.memTablePool != nil
 //@   ensures[C08,C06] m.lastSeqNum == old(m.lastSeqNum)
@@ -153,3 +176,6 @@ package storage
 // handed to the sort puts a deeper level first and, within a level, the earlier creation timestamp (then sequence).
 //@ func (*Manager).loadSSTables$2
 //@   ensures[C12] result == (li > lj || (li == lj && (ti < tj || (ti == tj && si < sj))))
+//@ ghost global recInstalled int
+//@ loop (*Manager).recoverFromWAL#2
+//@   invariant[C02] recInstalled == idx
